@@ -86,7 +86,6 @@ Variable lower : list N -> list N.
 Variable login_ok : list N -> bool.
 Variable pw_ok : list N -> bool.
 Variable verify : list N -> list N -> bool.
-Hypothesis lower_idem : forall s, lower (lower s) = lower s.
 
 Notation bstep := (bstep lower login_ok pw_ok verify).
 Notation brun := (brun lower login_ok pw_ok verify).
@@ -147,6 +146,7 @@ Proof.
 Qed.
 
 (* ---- unique logins ---- *)
+Hypothesis lower_idem : forall s, lower (lower s) = lower s.
 Definition uidf (p : list N * brec) : N := br_uid (snd p).
 Definition binv (s : bstore) : Prop :=
   NoDup (map fst s) /\ NoDup (map uidf s) /\ Forall (fun p => lower (fst p) = fst p) s.
@@ -285,3 +285,9 @@ Proof.
 Qed.
 
 End BasicThms.
+
+Lemma apikey_no_panic_refuted :
+  ~ (forall (mac : list N -> list N -> list N) salt key, check_api_key mac salt key <> AKPanic).
+Proof.
+  intros H. apply (H (fun _ _ => []) [] (repeat 10 32)). reflexivity.
+Qed.
